@@ -519,6 +519,57 @@ func leafListJoined(w *World, r *Report, rule, name, lt string, ta *ssa.TypeAsse
 			elemDesc = fmt.Sprintf("collection not recognised (whole list: %v, starts empty: %v, one append per iteration: %v)", full, startsEmpty, everyIter)
 		}
 	}
+	// the same with an indexed fill: elems := make([]string, len(list)); elems[i] = element(i) on every iteration
+	if ms, isMake := join.Call.Args[0].(*ssa.MakeSlice); isMake && isLenOf(ms.Len, list) {
+		stores, every, full := 0, true, false
+		var elem ssa.Value
+		for _, ref := range referrers(ms) {
+			ia, okI := ref.(*ssa.IndexAddr)
+			if !okI {
+				continue
+			}
+			hdr, okH := rangeIndexHeader(ia.Index, list)
+			if !okH {
+				every = false
+				continue
+			}
+			for _, ref2 := range referrers(ia) {
+				st, okS := ref2.(*ssa.Store)
+				if !okS || st.Addr != ssa.Value(ia) {
+					continue
+				}
+				stores++
+				elem = st.Val
+				for _, p := range hdr.Preds {
+					if hdr.Dominates(p) && !st.Block().Dominates(p) {
+						every = false
+					}
+				}
+				full = edgeDominates(hdr, 1, join.Block())
+			}
+		}
+		if stores == 1 && every && full && elem != nil {
+			if lt == "[]string" {
+				tc := &termCtx{leaf: func(v ssa.Value) string {
+					if _, _, ok := rangeElemOfAny(v, list); ok {
+						return "E"
+					}
+					return ""
+				}}
+				elemDesc = tc.term(elem)
+				elemOK = elemDesc == `(("\"" ++ E) ++ "\"")`
+			} else if fc, ok := elem.(*ssa.Call); ok && calleeFullName(&fc.Call) == "strconv.FormatInt" {
+				base, _ := constInt(fc.Call.Args[1])
+				_, _, isElem := rangeElemOfAny(fc.Call.Args[0], list)
+				elemDesc = fmt.Sprintf("FormatInt(E, %d)", base)
+				elemOK = base == 10 && isElem
+			} else {
+				elemDesc = describe(elem)
+			}
+		} else {
+			elemDesc = fmt.Sprintf("indexed fill not recognised (stores: %d, on every iteration: %v, whole list: %v)", stores, every, full)
+		}
+	}
 	sepOK := len(sep) == 1 && unicode.IsSpace(rune(sep[0]))
 	r.Check(open == "(" && close == ")" && sepOK && elemOK, rule, w.InstrPos(ta), name,
 		fmt.Sprintf("%s printed as %q + strings.Join(elements %s, %q) + %q", lt, open, elemDesc, sep, close),
@@ -673,6 +724,12 @@ func ruleIfLayout(w *World, r *Report) {
 }
 
 var c13Witnesses = append(append(evRemapWitnesses, wave3WitnessesC13...), []Witness{
+	{Name: "benign-list-joined-indexed-fill", Rule: "R-LEAFTYPES", Benign: true, Edits: []Edit{
+		{File: "util.go", Old: "\t\tvar sb strings.Builder\n\t\tsb.WriteRune('(')\n\t\tfor idx, s := range v {\n\t\t\tif idx != 0 {\n\t\t\t\tsb.WriteRune(' ')\n\t\t\t}\n\t\t\tsb.WriteString(`\"` + s + `\"`)\n\t\t}\n\t\tsb.WriteRune(')')\n\t\tres = sb.String()\n", New: "\t\telems := make([]string, len(v))\n\t\tfor idx, s := range v {\n\t\t\telems[idx] = `\"` + s + `\"`\n\t\t}\n\t\tres = \"(\" + strings.Join(elems, \" \") + \")\"\n"}}},
+	{Name: "list-joined-indexed-fill-skips-first", Rule: "R-LEAFTYPES", Edits: []Edit{
+		{File: "util.go", Old: "\t\tvar sb strings.Builder\n\t\tsb.WriteRune('(')\n\t\tfor idx, s := range v {\n\t\t\tif idx != 0 {\n\t\t\t\tsb.WriteRune(' ')\n\t\t\t}\n\t\t\tsb.WriteString(`\"` + s + `\"`)\n\t\t}\n\t\tsb.WriteRune(')')\n\t\tres = sb.String()\n", New: "\t\telems := make([]string, len(v))\n\t\tfor idx, s := range v {\n\t\t\tif idx == 0 && len(v) > 3 {\n\t\t\t\tcontinue\n\t\t\t}\n\t\t\telems[idx] = `\"` + s + `\"`\n\t\t}\n\t\tres = \"(\" + strings.Join(elems, \" \") + \")\"\n"}}},
+	{Name: "list-joined-indexed-fill-unquoted", Rule: "R-LEAFTYPES", Edits: []Edit{
+		{File: "util.go", Old: "\t\tvar sb strings.Builder\n\t\tsb.WriteRune('(')\n\t\tfor idx, s := range v {\n\t\t\tif idx != 0 {\n\t\t\t\tsb.WriteRune(' ')\n\t\t\t}\n\t\t\tsb.WriteString(`\"` + s + `\"`)\n\t\t}\n\t\tsb.WriteRune(')')\n\t\tres = sb.String()\n", New: "\t\telems := make([]string, len(v))\n\t\tfor idx, s := range v {\n\t\t\telems[idx] = s\n\t\t}\n\t\tres = \"(\" + strings.Join(elems, \" \") + \")\"\n"}}},
 	{Name: "benign-list-printed-with-strings-join", Rule: "R-LEAFTYPES", Benign: true, Edits: []Edit{
 		{File: "util.go", Old: "\t\tvar sb strings.Builder\n\t\tsb.WriteRune('(')\n\t\tfor idx, s := range v {\n\t\t\tif idx != 0 {\n\t\t\t\tsb.WriteRune(' ')\n\t\t\t}\n\t\t\tsb.WriteString(`\"` + s + `\"`)\n\t\t}\n\t\tsb.WriteRune(')')\n\t\tres = sb.String()\n", New: "\t\telems := make([]string, 0, len(v))\n\t\tfor _, s := range v {\n\t\t\telems = append(elems, `\"`+s+`\"`)\n\t\t}\n\t\tres = \"(\" + strings.Join(elems, \" \") + \")\"\n"}}},
 	{Name: "list-joined-with-comma", Rule: "R-LEAFTYPES", Edits: []Edit{
